@@ -23,7 +23,7 @@ def literalOk (cl : Cmp × List Char) : Bool :=
   decide (cl.1 ≠ .unknown) && decide (cl.2 = Spec.wellKnown)
 
 def ShapeOk (sh : AuthShape) : Bool :=
-  sh.recognised && sh.literals.all literalOk && sh.entries.all entryOk
+  sh.recognised && sh.stateless && sh.literals.all literalOk && sh.entries.all entryOk
 
 /-- the configurations the property quantifies over -/
 structure WF (cfg : Cfg) : Prop where
@@ -210,7 +210,7 @@ theorem C20_exact (sh : AuthShape) (cfg : Cfg) (verb path : List Char) (hs : Sha
     (h : exempt sh cfg verb path = true) :
     Spec.Bypass cfg.pfx cfg.health cfg.pkce verb path := by
   simp only [ShapeOk, Bool.and_eq_true, List.all_eq_true] at hs
-  obtain ⟨⟨_, hlit⟩, hent⟩ := hs
+  obtain ⟨⟨⟨_, _⟩, hlit⟩, hent⟩ := hs
   simp only [exempt, Bool.or_eq_true, Bool.and_eq_true, decide_eq_true_eq, List.any_eq_true] at h
   rcases h with (⟨_, hv⟩ | ⟨cl, hcl, hm⟩) | ⟨e, he, hcond, hm⟩
   · exact Or.inl hv
@@ -353,6 +353,29 @@ theorem C20_consulted (cfg : Cfg) (rq : Req) (hauth : cfg.authConfigured = true)
     · exact absurd ((C20_exact_iff cfg rq.verb rq.path).mp h) hnb
   unfold respond
   cases hok : rq.authOk <;> simp [hauth, hex']
+
+/-- **C20 over histories** — on one app instance, whatever requests came before (preflights, health probes, accepted
+    calls on the same path, …): every request of the history that the callback rejects runs no service code -/
+theorem C20_history (cfg : Cfg) (wf : WF cfg) (hauth : cfg.authConfigured = true) (history : List Req) :
+    ∀ p ∈ history.zip (respondAll Gen.Exempt.auth cfg history), p.1.authOk = false → p.2.code = [] := by
+  intro p hp hrej
+  unfold respondAll at hp
+  rw [List.zip_map_right] at hp
+  simp only [List.mem_map] at hp
+  obtain ⟨q, hq, rfl⟩ := hp
+  obtain ⟨a, b⟩ := q
+  have hab : a = b := by
+    have := List.of_mem_zip hq
+    clear hrej
+    induction history with
+    | nil => cases hq
+    | cons x xs ih =>
+      simp only [List.zip_cons_cons, List.mem_cons] at hq
+      rcases hq with h | h
+      · cases h; rfl
+      · exact ih h (List.of_mem_zip h)
+  subst hab
+  exact C20 cfg wf a hauth hrej
 
 /-! ### non-vacuity -/
 
